@@ -213,6 +213,10 @@ def realisations(tp, t):
         # a unit symbol with an upper-case prefix that also exists in lower case (Ms is not ms); the number is 0.5 s divided by
         # the factor the schema file declares for the prefix
         yield "delay-shifted-prefix", [(t - 0.5, group_text(tp[0], f"{0.5 / MEGA!r} Ms"))]
+        if t >= 4.0:
+            # the delayed group is written before the previous time point and lands after it
+            yield "delay-crossing", [(t - 2.5, group_text(tp[0], "2.5 s"))]
+            yield "delay-crossing-prefix", [(t - 2.5, group_text(tp[0], f"{2.5 / MEGA!r} Ms"))]
     if len(tp) == 2 and tp[0][1].casefold() != tp[1][1].casefold():
         yield "mixed-delay-second", [(t - 0.5, group_text(tp[1], "0.5 s")), (t, texts[0])]
         yield "mixed-delay-first", [(t - 0.5, group_text(tp[0], "0.5 s")), (t, texts[1])]
@@ -484,7 +488,7 @@ def unsorted_files(ctx):
 
 def worst_kind(combo):
     ks = [k for k, _ in combo]
-    for k in ("mixed-delay-first", "mixed-delay-second", "delay-shifted-prefix", "delay-shifted-case", "delay-shifted-ms", "delay-shifted",
+    for k in ("mixed-delay-first", "mixed-delay-second", "delay-crossing-prefix", "delay-crossing", "delay-shifted-prefix", "delay-shifted-case", "delay-shifted-ms", "delay-shifted",
               "equal-onset-rows"):
         if k in ks:
             return k
